@@ -456,6 +456,7 @@ type clausePrinter struct {
 	nOld   int
 	fail   string
 	inOld  bool
+	needStrings bool
 }
 
 func (p *clausePrinter) print(e ast.Expr) string {
@@ -475,7 +476,15 @@ func (p *clausePrinter) print(e ast.Expr) string {
 	case *ast.BinaryExpr:
 		return "(" + p.print(e.X) + " " + e.Op.String() + " " + p.print(e.Y) + ")"
 	case *ast.CompositeLit:
-		return "(" + exprString(e) + ")"
+		var els []string
+		for _, el := range e.Elts {
+			if kv, ok := el.(*ast.KeyValueExpr); ok {
+				els = append(els, exprString(kv.Key)+": "+p.print(kv.Value))
+			} else {
+				els = append(els, p.print(el))
+			}
+		}
+		return "(" + exprString(e.Type) + "{" + strings.Join(els, ", ") + "})"
 	case *ast.IndexExpr:
 		return p.print(e.X) + "[" + p.print(e.Index) + "]"
 	case *ast.TypeAssertExpr:
@@ -510,6 +519,15 @@ func (p *clausePrinter) print(e ast.Expr) string {
 			return "func() bool { _, ok := " + p.print(e.Args[0]) + ".(" + exprString(e.Args[1]) + "); return ok }()"
 		case "len":
 			return "len(" + p.print(e.Args[0]) + ")"
+		case "strcontains":
+			p.needStrings = true
+			return "strings.Contains(string(" + p.print(e.Args[0]) + "), string(" + p.print(e.Args[1]) + "))"
+		case "strbefore":
+			p.needStrings = true
+			return "func(s, sep string) string { if i := strings.Index(s, sep); i >= 0 { return s[:i] }; return s }(string(" + p.print(e.Args[0]) + "), string(" + p.print(e.Args[1]) + "))"
+		case "strafter":
+			p.needStrings = true
+			return "func(s, sep string) string { if i := strings.Index(s, sep); i >= 0 { return s[i+len(sep):] }; return \"\" }(string(" + p.print(e.Args[0]) + "), string(" + p.print(e.Args[1]) + "))"
 		}
 		if sf, ok := p.x.prog.spec.SpecFns[name]; ok {
 			var args []string
@@ -545,13 +563,21 @@ func (p *clausePrinter) specFnLit(sf *SpecFn) string {
 		p.fail = "recursive spec fn " + sf.Name + " cannot be printed"
 		return head + " { panic(\"recursive\") }"
 	}
-	// a top-level ite becomes if/else
-	if c, ok := sf.Body.Expr.(*ast.CallExpr); ok {
-		if id, ok := c.Fun.(*ast.Ident); ok && id.Name == "ite" && sf.RetType != "bool" {
-			return head + " { if " + p.print(c.Args[0]) + " { return " + p.print(c.Args[1]) + " }; return " + p.print(c.Args[2]) + " }"
+	// ite in result position becomes an if/else chain (its type is the function's result type)
+	return head + " { " + p.tail(sf.Body.Expr, sf.RetType != "bool") + " }"
+}
+
+// tail prints an expression in result position as statements ending in return.
+func (p *clausePrinter) tail(e ast.Expr, chain bool) string {
+	if pe, ok := e.(*ast.ParenExpr); ok {
+		return p.tail(pe.X, chain)
+	}
+	if c, ok := e.(*ast.CallExpr); ok && chain {
+		if id, ok := c.Fun.(*ast.Ident); ok && id.Name == "ite" && len(c.Args) == 3 {
+			return "if " + p.print(c.Args[0]) + " { " + p.tail(c.Args[1], chain) + " }; " + p.tail(c.Args[2], chain)
 		}
 	}
-	return head + " { return " + p.print(sf.Body.Expr) + " }"
+	return "return " + p.print(e)
 }
 
 // ---- the replay itself ---------------------------------------------------------------
@@ -682,7 +708,20 @@ func (r *Report) tryReplay(o *Obligation, dir string, log *strings.Builder) (str
 	cp := &clausePrinter{x: x}
 	check := ""
 	safety := o.Kind != "post"
-	if o.Kind == "post" {
+	isLemma := x.spec.Kind == "lemma"
+	if isLemma {
+		// a lemma is replayed as a whole: run its body on the model's input and evaluate its conclusion
+		var cs []string
+		for _, c := range x.spec.Ens {
+			cs = append(cs, "("+cp.print(c.Expr)+")")
+		}
+		if cp.fail != "" || len(cs) == 0 {
+			fmt.Fprintf(log, "replay: %s\n", cp.fail)
+			return "", false
+		}
+		check = strings.Join(cs, " && ")
+		safety = false
+	} else if o.Kind == "post" {
 		var cl *Clause
 		for k, c := range x.spec.Ens {
 			d := fmt.Sprint(k)
@@ -722,6 +761,9 @@ func (r *Report) tryReplay(o *Obligation, dir string, log *strings.Builder) (str
 	var src bytes.Buffer
 	fmt.Fprintf(&src, "// Replay of failed obligation %s (property %s)\n// clause: %s\n// at: %s\n// solver: %s\n", o.Name, r.rc.prop, o.Desc, o.Pos, res.Solver)
 	fmt.Fprintf(&src, "package %s\n\nimport (\n", x.prog.pkg.Types.Name())
+	if cp.needStrings {
+		b.imports["strings"] = true
+	}
 	var imps []string
 	for p := range b.imports {
 		imps = append(imps, p)
@@ -760,7 +802,7 @@ func (r *Report) tryReplay(o *Obligation, dir string, log *strings.Builder) (str
 	fmt.Fprintf(&src, "}\n")
 	gopath := filepath.Join(dir, sanitize(o.Name)+"_test.go")
 	os.WriteFile(gopath, src.Bytes(), 0o644)
-	out, failed := runReplayTest(r.rc.repo, gopath, testName, dir)
+	out, failed := runReplayTest(r.rc.repo, gopath, testName, dir, isLemma)
 	fmt.Fprintf(log, "replay test: %s\nreplay output:\n%s\n", gopath, indent(strings.TrimSpace(out), "  "))
 	reproduced := failed && strings.Contains(out, "REPLAY-VIOLATION")
 	if reproduced {
@@ -771,14 +813,19 @@ func (r *Report) tryReplay(o *Obligation, dir string, log *strings.Builder) (str
 	return gopath, reproduced
 }
 
-func runReplayTest(repo, gofile, testName, dir string) (string, bool) {
+func runReplayTest(repo, gofile, testName, dir string, withTag bool) (string, bool) {
 	ov := map[string]map[string]string{"Replace": {filepath.Join(repo, "zz_limevc_replay_test.go"): gofile}}
 	ovb, _ := json.Marshal(ov)
 	ovpath := filepath.Join(dir, "overlay_"+testName+".json")
 	os.WriteFile(ovpath, ovb, 0o644)
 	ctx, cancel := context.WithTimeout(context.Background(), 180*time.Second)
 	defer cancel()
-	cmd := exec.CommandContext(ctx, "go", "test", "-overlay", ovpath, "-vet=off", "-count=1", "-timeout", "60s", "-run", "^"+testName+"$", ".")
+	args := []string{"test", "-overlay", ovpath, "-vet=off", "-count=1", "-timeout", "60s", "-run", "^" + testName + "$"}
+	if withTag {
+		args = append(args, "-tags=verif") // lemma functions live in the guarded contract file
+	}
+	args = append(args, ".")
+	cmd := exec.CommandContext(ctx, "go", args...)
 	cmd.Dir = repo
 	cmd.Env = append(os.Environ(), "GOFLAGS=-mod=mod", "GOPROXY=off", "GOSUMDB=off", "GOTOOLCHAIN=local")
 	var out bytes.Buffer
